@@ -42,18 +42,39 @@ Definition C15_normal : Prop :=
   reset code_variant false s seen snapshot remote src cands prs = mkRes LossyResetWarning remote [] 0 [].
 
 (* As long as `git log --no-merges` hides merge commits from the loop, a manual MERGE commit (the author's
-   conflict resolution) on top of the robot's merge is deleted without a warning.  Witness C15Proofs.mg_store,
-   replayed on the real system by corpus/C15/manual_merge.json. *)
+   conflict resolution) on top of the robot's merge is deleted without a warning.  Witness C15Proofs.mg_store;
+   on the real system this was corpus/C15/manual_merge.json before /repo commit 4e1acf0 (now a regression case
+   that must end in LossyResetWarning). *)
 Theorem C15_refuted_merge : walk_merges code_variant = false -> ~ C15_normal.
 Proof. exact (normal_refuted_when_merges_hidden code_variant). Qed.
 Print Assumptions C15_refuted_merge.
 
-(* ... and it holds as soon as the loop examines merge commits (fixes/C15_merge_commits.diff). *)
+(* ... and it holds as soon as the loop examines merge commits (the repair, fixes/C15_merge_commits.diff). *)
 Theorem C15_partial_merge : walk_merges code_variant = true -> C15_normal.
 Proof. exact (normal_holds_when_merges_walked code_variant). Qed.
 Print Assumptions C15_partial_merge.
 
-(* The strongest part that is true of the code as it is: normal shape and the manual commit is not a merge. *)
+(* THE VERDICT FOR THE CODE AS IT IS NOW.  The switch is data of /repo (Generated/Facts_C15.v, read from the AST of
+   _reset on every run).  C15_code is stated for the repaired loop and its proof is [eq_refl] on the switch:
+   reverting the repair (hiding merge commits from the walk again) makes PROVE fail.  Today: manual work made on
+   the robot's merge commit - plain commit or merge commit - makes `reset` refuse (C15_normal); the statement at
+   full strength stays false only through the fast-forward shape F8 (known finding, C15_refuted). *)
+Theorem C15_code_is_repaired : code_variant = mkVariant true true true.
+Proof. exact code_is_repaired. Qed.
+Print Assumptions C15_code_is_repaired.
+
+Theorem C15_code : walk_merges code_variant = true /\ C15_normal /\ ~ C15_full.
+Proof. exact code_statement. Qed.
+Print Assumptions C15_code.
+
+(* The same verdict as a function of the switch (true of either value, so that the file says what each means). *)
+Theorem C15_verdict :
+  if walk_merges code_variant then C15_normal /\ ~ C15_full
+  else ~ C15_normal /\ nonmerge_statement code_variant /\ ~ C15_full.
+Proof. exact (code_verdict_holds code_variant). Qed.
+Print Assumptions C15_verdict.
+
+(* What held before the repair and still holds for every variant: normal shape and the manual commit is not a merge. *)
 Theorem C15_partial :
   forall s seen h snapshot remote src cands prs wb cd cw c,
   well_formed code_variant s seen h snapshot src cands -> robot_merges_seen code_variant s seen ->
